@@ -230,7 +230,9 @@ def run_property(prop, tier, seed):
             undecided.append('known finding could not be replayed: %s' % rr.get('error'))
             continue
         out = rr['stdout'].strip()
-        if out == k['replay']['defective_output'].strip():
+        if 'defective_returncode' in k['replay'] and rr.get('returncode') == k['replay']['defective_returncode']:
+            known_hits.append((k, {'obligation': 'replay:' + ' '.join(k['replay']['args'])}))
+        elif out == k['replay']['defective_output'].strip():
             known_hits.append((k, {'obligation': 'replay:' + ' '.join(k['replay']['args'])}))
         elif out == k['replay'].get('expected_output', '\0').strip() or ('expected_prefix' in k['replay'] and out.startswith(k['replay']['expected_prefix'])):
             notes.append('NOTE known finding no longer reproduces (now as the property requires): %s' % k.get('what'))
